@@ -62,8 +62,9 @@ def generate(rng: random.Random, tier: str) -> dict:
         policy = {"kind": "uniform"}
     cfg: Dict[str, Any] = {"scenario": scen, "policy": policy}
     wl: Dict[str, Any] = {}
+    wide = tier == "thorough" and rng.random() < 0.2
     if scen == "inproc":
-        T = rng.choice([2, 2, 3])
+        T = rng.choice([2, 2, 3]) if not wide else 4
         nparts = rng.randint(T, T + 3)
         wl["threads"] = _assign(rng, T, nparts, first=2)
         wl["sizes"] = {str(p): rng.choice([5, 6, 9, 20]) for t in wl["threads"] for p in t}
@@ -71,7 +72,7 @@ def generate(rng: random.Random, tier: str) -> dict:
         wl["part_base"] = rng.choice([0, 0, 95, 9990])
         cfg["kw"] = rng.choice([{}, {"ContentType": "image/tiff"}])
     elif scen == "cluster":
-        W = rng.choice([1, 2, 2, 3])
+        W = rng.choice([1, 2, 2, 3]) if not wide else rng.choice([3, 4])
         tpw = [rng.choice([1, 1, 2]) for _ in range(W)]
         T = sum(tpw)
         if T < 2:
